@@ -72,6 +72,10 @@ def handle (s : S) (i : Nat) (j : Json) : S × List Json :=
     let cur := ordersOf st.obs
     let okTx (kinds : List String) (spot : Bool) (id : Nat) : Bool :=
       st.txs.any (fun t => t.code == 0 && kinds.contains t.kind && ((fInt? t.f "id").getD (-1)).toNat == id && (t.kind.startsWith "ts.spot") == spot)
+    -- the batch forms of cancel name several orders in one message (`ids`, with the stored owner of each in `owners`)
+    let batchIds (t : TxObs) : List Nat := ((fld t.f "ids").getArr?.toOption.getD #[]).toList.map (fun x => ((jInt? x).getD (-1)).toNat)
+    let inBatch (spot : Bool) (id : Nat) : Bool :=
+      st.txs.any (fun t => t.code == 0 && t.kind == (if spot then "ts.spotCancelMany" else "ts.perpCancelMany") && (batchIds t).contains id)
     -- the price an execution compares with is the one in force when its ts.execute ran: a feed may come before, between or after the
     -- execution requests of a block. An order named by successful requests that ran under different prices is not judged.
     let idxd := (List.range st.txs.length).zip st.txs
@@ -90,7 +94,7 @@ def handle (s : S) (i : Nat) (j : Json) : S × List Json :=
     -- 1. model replay per previously pending order: which op explains what happened to it
     let perOrder := s.prev.map fun ord =>
       let still := cur.any (fun c => c.key == ord.key)
-      let cancelled := okTx ["ts.spotCancel", "ts.perpCancel"] ord.spot ord.id
+      let cancelled := okTx ["ts.spotCancel", "ts.perpCancel"] ord.spot ord.id || inBatch ord.spot ord.id
       let m0 : St := { pending := [(ord.key, 1)], amount := [(ord.key, ord.amount)], escrow := [(ord.key, s.prevBank.get (ord.escrow, ord.denom))],
                        owner := [(ord.key, ord.owner)] }
       -- an owner's update earlier in the same block changes the rate the execution compares with
@@ -136,6 +140,11 @@ def handle (s : S) (i : Nat) (j : Json) : S × List Json :=
       (match st.txs.find? (fun t => t.code == 0 && ["ts.spotCancel", "ts.spotUpdate", "ts.perpCancel", "ts.perpUpdate"].contains t.kind &&
             (fStr? t.f "signer") != (fStr? t.f "owner")) with
        | some t => [verdictViol i "C20.owner_only" (Json.mkObj [("kind", t.kind), ("id", fld t.f "id"), ("owner", fld t.f "owner"), ("signer", fld t.f "signer")])]
+       | none => []) ++
+      -- owner only, batch forms: a successful batch cancel must be signed by the stored owner of EVERY order it names
+      (match st.txs.find? (fun t => t.code == 0 && ["ts.spotCancelMany", "ts.perpCancelMany"].contains t.kind &&
+            (((fld t.f "owners").getArr?.toOption.getD #[]).toList.any (fun o => o.getStr?.toOption != (fStr? t.f "signer")))) with
+       | some t => [verdictViol i "C20.owner_only" (Json.mkObj [("kind", t.kind), ("ids", fld t.f "ids"), ("owners", fld t.f "owners"), ("signer", fld t.f "signer")])]
        | none => []) ++
       -- trigger: an order that disappeared without a cancel was executed, so its trigger must hold at the block's price
       (if feedAfterExecute then [] else
